@@ -159,6 +159,17 @@ CLAIMED = {
         ref='DESIGN.md §6 C17', note='The hypothesis Balanced of balanced_history is discharged per operator, not for the whole evaluator (global induction over all operators not done); '
              'end-to-end balance is observed by the correspondence. Keyword bindings of Wal.eval are Python glue: covered by the oracle only, not modelled.',
         technique='Lean 4 proof (per-operator restore laws + induction over histories) + correspondence and fresh-interpreter differential'),
+    'C16': dict(
+        text='About the model\'s passes: resolve_recomputes / resolve_symbol_idem (the annotation of a symbol depends on the scope stack only, so '
+             'resolving an already resolved symbol gives the same annotation), quoted data and atoms are fixed points of every pass '
+             '(resolve_quote_fixed, optimize_quote_fixed, optimize_atom_fixed, expand_quote_fixed, expand_atom_fixed), optimize_lit_result_fixed, '
+             'pipeline_def (Wal.eval = expand, optimize, resolve, eval), kernel-evaluated idempotence of the whole front end on library code '
+             '(twice_eq_once_for / cond / let over the regenerated std.wal) and second_pass_witness (the one shape on which a second optimize is '
+             'not the identity). Correspondence and search: generated multi-form programs run four ways (API, python -m wal file, -c, walc + .wo) as '
+             'subprocesses: stdout, exit status, final trace position; the API run is also compared with the model.',
+        ref='DESIGN.md §6 C16', note='partial: argparse, pickle, process exit codes and file handling are runtime behaviour, exercised by the subprocess differential only. General idempotence of '
+             'optimize is false on heads that optimise into an operator (witness proved); general resolve/expand idempotence is not proved.',
+        technique='Lean 4 proof (fixed-point and recomputation lemmas, kernel-evaluated idempotence on library code) + four-path subprocess differential'),
 }
 
 REASONS_PENDING = 'check under construction in this round (DESIGN.md §13 build order); not a claim of inapplicability'
